@@ -426,7 +426,14 @@ where
 {
     #[inline(always)]
     fn select(&self, symbol: Self::Item, i: usize) -> Option<usize> {
-        if COMPRESSED && self.codes_encode.as_ref().unwrap()[symbol.as_() as usize].len == 0 {
+        if !COMPRESSED && symbol > *self.sigma.as_ref()? {
+            return None;
+        }
+
+        if COMPRESSED
+            && (symbol.as_() >= self.codes_encode.as_ref()?.len()
+                || self.codes_encode.as_ref()?[symbol.as_() as usize].len == 0)
+        {
             return None;
         }
 
